@@ -404,7 +404,7 @@ func RunC13(ctx *core.Ctx) *core.Violation {
 	maxLA := t.Pick(1, 2, 4, 9, 40, 200)
 	maxTok := t.Pick(1, 3, 8, 20, 70, 400)
 	if huge || t.Chance(1, 60) {
-		maxTok = t.Pick(4095, 4096, 4097, 5000, 9000) // tokens longer than the default buffer
+		maxTok = t.Pick(2048, 2049, 4095, 4096, 4097, 5000, 9000) // tokens around and beyond the growth edge of the default buffer
 	}
 	stopN := t.Pick(8, 32, 128)
 	drain := t.Chance(1, 2)
